@@ -2,7 +2,8 @@
    case:    24 <op> <op> ...      ops  at:<path>:<k>  rm:<path>:<k>  (k = 1|2|3)   om:<path>   rmom:<path>
             (the instance registered by the n-th op carries id n)
    model:   what harness/hobjsrv prints: step observations joined by ';', step = res|L|C|X1|X2|T
-   spec:    the same from the flat map, without the T section (tree shapes are not constrained)
+   spec:    the same from the flat map, without the T section (tree shapes are not constrained);
+            a successful removal is OK there (matches T and F: the returned flag is not constrained)
    class:   the first known-deviation class the history runs into, or '-'                          *)
 From ZV Require Import Base.Bytes Base.Res C24.Ops C24.Model C24.Spec.
 
@@ -59,7 +60,7 @@ Fixpoint parse_ops (id : N) (ws : list bytes) : option (list op) :=
 
 (* ---- rendering *)
 Definition res_tok (r : sres) : bytes :=
-  match r with RBool true => B "T" | RBool false => B "F" | RErr => B "ERR" | RPanic => B "PANIC" end.
+  match r with RBool true => B "T" | RBool false => B "F" | RDone => B "OK" | RErr => B "ERR" | RPanic => B "PANIC" end.
 
 Definition id_tok (k : kind) (v : option N) : bytes :=
   match v with
